@@ -11,6 +11,8 @@ import ModVerif.Proofs.ModfileRule
 import ModVerif.Proofs.ModfilePos
 import ModVerif.Proofs.ModfileC20Tree
 import ModVerif.Proofs.ModfileC20Stmts
+import ModVerif.Proofs.ModfileC20Lax
+import ModVerif.Proofs.ModfileC20Ignore
 namespace ModVerif.Props.C20
 open ModVerif ModVerif.Modfile
 
@@ -205,6 +207,27 @@ theorem lax_eq_strict_on_syntax_error (name data : Bytes) (fix : Option Fixer) (
     parseToFile name data fix false = parseToFile name data fix true := by
   rw [(parseToFile_syntax_error name data fix false e h).1, (parseToFile_syntax_error name data fix true e h).1]
 
+/-- `lax_superset`: every file the strict parser accepts (with any version fixer) is accepted by the lax
+    parser with the same module, go, require and retract values (whole typed entries: paths, versions,
+    the indirect flag, deprecation text, intervals, rationales and line identities).
+    Proof (Proofs/ModfileC20Lax.lean): simulation over `addStmts` — the strict and the lax state stay equal
+    on those four fields and on the error list (`add_sim`, built from `lax_superset_line` and a
+    congruence / frame lemma per verb); every retract entry refers to a line that both rewritten trees
+    contain with identical tokens, and line identities are pairwise distinct (`parse_ids_nodup`), so
+    `fixRetract` reads the same tokens and computes the same intervals in both runs. -/
+theorem lax_superset (name data : Bytes) (fix : Option Fixer) (f : File)
+    (h : parseToFile name data fix true = .ok f) :
+    ∃ g, parseToFile name data fix false = .ok g ∧ g.module = f.module ∧ g.go = f.go ∧
+      g.require = f.require ∧ g.retract = f.retract :=
+  Proofs.ModfileC20.lax_superset name data fix f h
+
+/-- Non-vacuity: a file using every directive, with retractions rewritten by the stub fixer, is accepted by
+    the strict parser. -/
+example :
+    (parseToFile (B "go.mod")
+      (B "module example.com/m\ngo 1.21\ntoolchain go1.21.0\nrequire a.b/c v1.0.0 // indirect\nexclude a.b/c v1.1.0\nreplace a.b/c => ../c\nretract [v1.0.0, latest] // bad\ntool a.b/c/cmd\n")
+      (some fixStub) true).toOption.isSome = true := by decide +kernel
+
 /-- The step of `lax_superset`: on a go / module / retract / require line that the strict directive
     layer accepts (it adds no error), the lax directive layer computes the same typed entries and the
     same rewritten tokens. -/
@@ -232,6 +255,17 @@ theorem lax_ignores_unknown_block (st : AddState) (b : LineBlock) (fix : Option 
   · rename_i verb hv
     simp [h verb hv]
   · rfl
+
+/-- `lax_ignores_unknown`, statement-list form: the lax directive layer's typed state (module, go,
+    require, retract, error list) after a statement list equals its state after the list with every
+    ignored statement removed — `laxIgnored`: lines whose verb is not go / module / retract / require,
+    blocks whose header is not a single block verb that lax keeps, comment blocks — wherever they occur and
+    however many there are.  (What is not proved is the parser-level fact that inserting such text into
+    the input inserts exactly such statements into the statement list, lean/PENDING.md.) -/
+theorem lax_ignores_unknown_stmts (fix : Option Fixer) (st : AddState) (xs : List Expr) :
+    (addStmts fix false st xs).1 =
+      (addStmts fix false st (xs.filter (fun x => !Proofs.ModfileC20.laxIgnored x))).1 :=
+  Proofs.ModfileC20.addStmts_lax_filter fix xs st
 
 /-- Non-vacuity of `lax_ignores_unknown_*`: a file with an unknown directive and an unknown block is
     rejected by the strict parser and accepted by the lax parser with the module / go / require of
